@@ -43,7 +43,8 @@ class BpNode(object):
         self.sim = sim
         self.name = name
         self.node_id = node_id
-        if cfg_kwargs.pop('via_file', False):
+        via_file = cfg_kwargs.pop('via_file', False)
+        if via_file:
             # the way the daemon is configured: a document read by the real Config.from_file() (node id and route tables included)
             import io  # pylint: disable=import-outside-toplevel
             import json  # pylint: disable=import-outside-toplevel
@@ -51,6 +52,16 @@ class BpNode(object):
                        rx_route_table=[dict(eid_pattern=pattern, action=action) for (pattern, action) in rx_routes],
                        tx_route_table=[dict(eid_pattern=route['pattern'], next_nodeid=route.get('next', 'dtn://next/'), cl_type=route.get('cl', 'fake'))
                                        for route in tx_routes])
+            if via_file == 'noisy':
+                # a hand-edited file: entries that cannot be used (no regular expression, missing keys, not a mapping) between the
+                # good ones; each is ignored by itself, the routes around it apply as written
+                junk = [dict(eid_pattern='dtn://lab[/.*', action='deliver'), dict(action='forward'), dict(eid_pattern='dtn://x/.*'), 'delete', 7]
+                for (table, junk_tx) in ((doc['rx_route_table'], False), (doc['tx_route_table'], True)):
+                    good = list(table)
+                    del table[:]
+                    for idx, entry in enumerate(good):
+                        table.append(junk[idx % len(junk)] if not junk_tx else dict(eid_pattern='dtn://lab[/.*', next_nodeid='dtn://n/', cl_type='fake'))
+                        table.append(entry)
             cfg = bp_config.Config()
             cfg.from_file(io.StringIO(json.dumps({'bp': doc})))
         else:
